@@ -338,6 +338,30 @@ struct Rewriter<'a> {
     pred_counter: usize,
 }
 
+/// R36 helper: body `{ async move { B }.boxed_local() }` (or `.boxed()`) with return type `X<'a, T>` -> (B, T)
+fn async_block_body(b: &Block, sig: &syn::Signature) -> Option<(Block, syn::Type)> {
+    if b.stmts.len() != 1 {
+        return None;
+    }
+    let e = match &b.stmts[0] { Stmt::Expr(e, None) => e, _ => return None };
+    let mc = match e { Expr::MethodCall(mc) if (mc.method == "boxed_local" || mc.method == "boxed") && mc.args.is_empty() => mc, _ => return None };
+    let ab = match &*mc.receiver { Expr::Async(a) => a, _ => return None };
+    let out_ty = match &sig.output {
+        syn::ReturnType::Type(_, t) => match &**t {
+            syn::Type::Path(tp) => {
+                let last = tp.path.segments.last()?;
+                match &last.arguments {
+                    syn::PathArguments::AngleBracketed(ab) => ab.args.iter().filter_map(|a| if let syn::GenericArgument::Type(t) = a { Some(t.clone()) } else { None }).last()?,
+                    _ => return None,
+                }
+            }
+            _ => return None,
+        },
+        _ => return None,
+    };
+    Some((ab.block.clone(), out_ty))
+}
+
 /// R35 helper: rewrites the first top-level `if c { ..; continue; }` (no else, unlabeled continue last)
 /// of a block into `if c { .. } else { <rest of the block> }`, recursively in the new else block.
 fn continue_to_else(b: &mut Block) -> usize {
@@ -984,6 +1008,18 @@ impl<'a> VisitMut for Rewriter<'a> {
                 self.logr("R32", line, format!("`.iter_mut().find(pred)` -> let {} = pred; {}(&mut .., {}) (predicate named so that proofs can refer to it)", pn, to, pn));
                 self.pending_lets.push(parse_quote!(let #pn = #c;));
                 *e = parse_quote!(#f(&mut #x, #pn));
+            }
+            Expr::MethodCall(mc) if mc.method == "all" && mc.args.len() == 1
+                && matches!(&*mc.receiver, Expr::MethodCall(im) if im.method == "iter" && im.args.is_empty())
+                && self.expr_map.iter().any(|(f, _)| f == "__adapter_iter_all") =>
+            {
+                // R32 (all): `X.iter().all(pred)` -> stand-in with a contract over the predicate's contract
+                let to = self.expr_map.iter().find(|(f, _)| f == "__adapter_iter_all").map(|(_, t)| t.clone()).unwrap();
+                let f = syn::Ident::new(&to, proc_macro2::Span::call_site());
+                let x = match &*mc.receiver { Expr::MethodCall(im) => im.receiver.clone(), _ => unreachable!() };
+                let c = mc.args.first().unwrap().clone();
+                self.logr("R32", line, format!("`.iter().all(pred)` -> {}(&.., pred)", to));
+                *e = parse_quote!(#f(&#x, #c));
             }
             Expr::MethodCall(mc) if mc.method == "map" && mc.args.len() == 1
                 && matches!(&*mc.receiver, Expr::MethodCall(im) if im.method == "split" && im.args.len() == 1)
@@ -2096,35 +2132,83 @@ fn process_unit(job: &Job, ctx: &Ctx, u: &UnitReq, uidx: usize, vac: bool) -> Un
                     break;
                 }
             }
-            // R33: a provided (default) method of a trait `Tr: Super` is emitted as the blanket impl
-            // `impl<VxSelf: Super> Tr for VxSelf { fn m(..) { <default body> } }` (what every implementor runs)
+            // R33: provided (default) methods of a trait `Tr: Super` are emitted as the blanket impl
+            // `impl<VxSelf: Super> Tr for VxSelf { fn m(..) { <default body> } .. }` (what every implementor runs)
             if chosen.is_none() && want_trait.is_none() {
-                if let Some(m) = &u.method {
-                    for it in items {
-                        if let Item::Trait(tr) = it {
-                            if norm(&tr.ident.to_token_stream()) != want_self {
-                                continue;
-                            }
-                            for ti in tr.items.iter() {
-                                if let syn::TraitItem::Fn(tf) = ti {
-                                    if tf.sig.ident == m {
-                                        if let Some(body) = &tf.default {
-                                            let tid = &tr.ident;
-                                            let sup = &tr.supertraits;
-                                            let mut synth: syn::ItemImpl = parse_quote!(impl<VxSelf: #sup> #tid for VxSelf {});
-                                            synth.items.push(ImplItem::Fn(syn::ImplItemFn {
-                                                attrs: tf.attrs.clone(),
-                                                vis: syn::Visibility::Inherited,
-                                                defaultness: None,
-                                                sig: tf.sig.clone(),
-                                                block: body.clone(),
-                                            }));
-                                            out.rewrites.push(RewriteLog { rule: "R33".into(), line: line_of(&tf.sig), detail: format!("provided method {}::{} emitted as the blanket impl for every implementor of its supertraits", tid, m) });
-                                            chosen = Some(synth);
+                for it in items {
+                    if let Item::Trait(tr) = it {
+                        if norm(&tr.ident.to_token_stream()) != want_self {
+                            continue;
+                        }
+                        let tid = &tr.ident;
+                        let sup = &tr.supertraits;
+                        let mut synth: syn::ItemImpl = parse_quote!(impl<VxSelf: #sup> #tid for VxSelf {});
+                        for ti in tr.items.iter() {
+                            if let syn::TraitItem::Fn(tf) = ti {
+                                let name = tf.sig.ident.to_string();
+                                let wanted = match (&u.method, &u.only_methods) {
+                                    (Some(m), _) => &name == m,
+                                    (None, Some(list)) => list.contains(&name),
+                                    (None, None) => true,
+                                };
+                                if !wanted {
+                                    continue;
+                                }
+                                if let Some(body) = &tf.default {
+                                    let mut fsig = tf.sig.clone();
+                                    let mut fblock = body.clone();
+                                    if u.hoist {
+                                        // R36: `fn m(&self, ..) -> [Local]BoxFuture<'a, T> { async move { B }.boxed[_local]() }`
+                                        // -> free `async fn m<VxSelf: Super, ..>(vx_self: &VxSelf, ..) -> T { B }` (self renamed)
+                                        match async_block_body(&fblock, &fsig) {
+                                            Some((inner, out_ty)) => {
+                                                struct SelfRen;
+                                                impl VisitMut for SelfRen {
+                                                    fn visit_item_mut(&mut self, _i: &mut Item) {}
+                                                    fn visit_expr_path_mut(&mut self, p: &mut syn::ExprPath) {
+                                                        if p.path.is_ident("self") {
+                                                            p.path = parse_quote!(vx_self);
+                                                        }
+                                                    }
+                                                }
+                                                fblock = inner;
+                                                SelfRen.visit_block_mut(&mut fblock);
+                                                let recv = match fsig.inputs.first() { Some(syn::FnArg::Receiver(r)) => Some(r.clone()), _ => None };
+                                                if let Some(r) = recv {
+                                                    let lt = r.reference.as_ref().and_then(|(_, l)| l.clone());
+                                                    let m = r.mutability;
+                                                    let newarg: syn::FnArg = match (&lt, m.is_some()) {
+                                                        (Some(l), true) => parse_quote!(vx_self: &#l mut VxSelf),
+                                                        (Some(l), false) => parse_quote!(vx_self: &#l VxSelf),
+                                                        (None, true) => parse_quote!(vx_self: &mut VxSelf),
+                                                        (None, false) => parse_quote!(vx_self: &VxSelf),
+                                                    };
+                                                    let rest: Vec<syn::FnArg> = fsig.inputs.iter().skip(1).cloned().collect();
+                                                    fsig.inputs = std::iter::once(newarg).chain(rest.into_iter()).collect();
+                                                }
+                                                fsig.generics.params.push(parse_quote!(VxSelf: #sup));
+                                                fsig.asyncness = Some(Default::default());
+                                                fsig.output = parse_quote!(-> #out_ty);
+                                                out.rewrites.push(RewriteLog { rule: "R36".into(), line: line_of(&tf.sig), detail: format!("{}::{}: body `async move {{ .. }}.boxed()` emitted as a free async fn over any implementor (self -> vx_self)", tid, name) });
+                                            }
+                                            None => {
+                                                out.error = Some(format!("unsupported-construct: {}::{} is not of the form `async move {{ .. }}.boxed[_local]()`", tid, name));
+                                            }
                                         }
                                     }
+                                    synth.items.push(ImplItem::Fn(syn::ImplItemFn {
+                                        attrs: tf.attrs.clone(),
+                                        vis: syn::Visibility::Inherited,
+                                        defaultness: None,
+                                        sig: fsig,
+                                        block: fblock,
+                                    }));
+                                    out.rewrites.push(RewriteLog { rule: "R33".into(), line: line_of(&tf.sig), detail: format!("provided method {}::{} emitted in the blanket impl for every implementor of its supertraits", tid, name) });
                                 }
                             }
+                        }
+                        if !synth.items.is_empty() {
+                            chosen = Some(synth);
                         }
                     }
                 }
